@@ -134,7 +134,16 @@ def run(tape, kind):
     sched = sr.gen_schedule(tape)
     out.sample = {'spec': sp.describe_spec(spec), 'workload': wl, 'schedule': sched}
     sp.REC.reset(None)
-    run_ = sr.SamplerRun(tape, out, spec, wl, sched)
+    pool = None
+    if tape.chance('with_pool', 1, 4):
+        # the run stores outputs in an OutputPool (store sets without parameters): a second
+        # call on the same object is then served from what the first one left there
+        cands = ['sim'] + list(spec['sums']) + [spec['disc']]
+        stores = [c for c in cands if tape.chance('pool_store', 1, 2)] or [spec['disc']]
+        pool = elfi.OutputPool(stores)
+        out.probes['run_with_pool'] += 1
+        out.sample['pool_stores'] = stores
+    run_ = sr.SamplerRun(tape, out, spec, wl, sched, pool=pool)
     calls = [(wl['n_samples'], wl['objective'])]
     if 'second' in wl:
         calls.append(wl['second'])
